@@ -85,6 +85,7 @@ class Cell:
         if key is None:
             key = other.coordinate
         self.connections[key] = other
+        self._forget_neighborhoods()
 
     def disconnect(self, other: Cell) -> None:
         """Disconnects this cell from another cell.
@@ -96,6 +97,15 @@ class Cell:
         keys_to_remove = [k for k, v in self.connections.items() if v == other]
         for key in keys_to_remove:
             del self.connections[key]
+        self._forget_neighborhoods()
+
+    def _forget_neighborhoods(self) -> None:
+        """Drop the memoised neighborhoods after this cell's connections have changed."""
+        # a radius-r answer of any cell within r-1 hops of this one may have changed, so all memoised
+        # answers go; the `neighborhood` property (radius 1) only depends on the cell's own connections
+        Cell._neighborhood.cache_clear()
+        Cell.get_neighborhood.cache_clear()
+        self.__dict__.pop("neighborhood", None)
 
     def add_agent(self, agent: CellAgent) -> None:
         """Adds an agent to the cell.
